@@ -511,7 +511,8 @@ def check_tree(label: str, src: str, root: Any, literals: set[str], res: SearchR
 	def terminals(e: Any, acc: list[tuple[str, tuple[int, int], tuple[int, int]]]) -> None:
 		if e.is_terminal:
 			s = span(e)
-			if e.name in NAMED_TERMINALS and s != (0, 0, 0, 0):
+			# `match`/`case` are soft keywords: NAME for CPython, anonymous terminals kept under `name` by lark's python grammar
+			if (e.name in NAMED_TERMINALS or keyword.issoftkeyword(e.value)) and s != (0, 0, 0, 0):
 				acc.append((e.value, (s[0], s[1]), (s[2], s[3])))
 		for c in e.children:
 			terminals(c, acc)
@@ -633,7 +634,8 @@ def check_quotations(pr: Project, mp: str, ep: Any, rng: random.Random, limit: i
 				continue
 			exp = expected_marks(src, s)
 			if isinstance(q, str) or len(q) != 4 or exp is None:
-				add_finding(res, label, 'quotation-missing' if not isinstance(q, str) else f'quotation-raises:{q}', p, suffix, f'no quotation for {p} span {s}: {q}', replay)
+				key = 'quotation-missing' if not isinstance(q, str) else f'quotation-raises:{q}' + (':empty-module' if src == '' else '')
+				add_finding(res, label, key, p, suffix, f'no quotation for {p} span {s}: {q}', replay)
 				continue
 			lno, line, cols = exp
 			got_cols = {i for i, ch in enumerate(q[3][8:]) if ch == '^'}
